@@ -242,7 +242,58 @@ def helpers(rep: Report) -> None:
         rep.violation("evaluation changed the point or the expression", {})
 
 
+def after_failed_operations(rep: Report) -> None:
+    """operations that die half-way (RecursionError on an expression too tall for the interpreter's default limit)
+    must leave their operands as they were: structure, printed form, hash and value are compared with what they
+    were before, once the limit is raised again"""
+    import inspect
+    import sys
+    x, y = X.Variable("x"), X.Variable("y")
+    horner, minus, sine, mixed = y, x, x, x
+    for k in range(600):
+        horner = X.Add(X.Multiply(horner, x), X.Constant(float(k % 5)))
+        minus = X.Minus(minus, X.Constant(0.001))
+        sine = X.Sine(sine)
+        mixed = X.Multiply(X.Add(mixed, y), X.Constant(1.0 + 1.0 / (k + 2))) if k % 2 else X.Divide(mixed, X.Constant(1.0 + 1.0 / (k + 2)))
+    p0 = Point(x=0.5, y=0.25)
+    objs = {"Horner polynomial of degree 600": horner, "Minus chain": minus, "Sine chain": sine, "mixed chain": mixed}
+
+    def snap(e):
+        return (wire.expr(e, ids={}), call(e.at, p0), call(lambda: hash(e)), call(lambda: len(repr(e))))
+    before = {n: snap(e) for n, e in objs.items()}
+    ops = [("at", lambda e: e.at(p0)), ("Partial.at", lambda e: sm.Partial(e, "x").at(p0)), ("Partial early", lambda e: sm.Partial(e, "x", compute_early=True)),
+           ("Differential early", lambda e: sm.Differential(e, compute_early=True)), ("Differential.at", lambda e: sm.Differential(e).at(p0)),
+           ("LocatedDifferential", lambda e: sm.LocatedDifferential(e, p0)), ("as_expression", lambda e: sm.Partial(e, "y").as_expression()),
+           ("repr", repr), ("==", lambda e: e == e), ("hash", hash), ("_normalize", lambda e: e._normalize())]
+    old = sys.getrecursionlimit()
+    outcome = {}
+    try:
+        for n, e in objs.items():
+            for label, op in ops:
+                if n == "Sine chain" and label in ("Partial early", "Differential early", "as_expression", "_normalize"):
+                    continue        # simplifying the derivative of a 600-fold sine takes half a minute and fails nowhere
+                # from two stack depths: where exactly the interpreter gives up decides which statement is interrupted
+                for extra in (0, 37):
+                    sys.setrecursionlimit(1000 + len(inspect.stack(0)) - extra)
+                    with common.WarnCatcher():
+                        r = call(lambda: op(e), timeout=60)
+                    sys.setrecursionlimit(old)
+                    outcome[r[0] if r[0] == "ok" else r[1]] = outcome.get(r[0] if r[0] == "ok" else r[1], 0) + 1
+                    rep.evaluations += 1
+                    now = snap(e)
+                    if now != before[n]:
+                        what = [w for w, a, b in zip(("structure", "value", "hash", "length of repr"), before[n], now) if a != b]
+                        rep.violation(f"after {label} failed ({r!r}) on a {n}, the expression itself has changed ({', '.join(what)}): "
+                                      f"value {before[n][1]!r} -> {now[1]!r}", {"object": n, "operation": label, "stack_offset": extra})
+                        return
+    finally:
+        sys.setrecursionlimit(old)
+    rep.hist["operations-under-default-recursion-limit"] = outcome
+
+
 def run(rep: Report, rng, tier: str, known: dict, search: bool = False) -> None:
+    if not search:
+        after_failed_operations(rep)
     check_cases(gen_cases(rng, tier), rep, known)
 
 
